@@ -233,3 +233,25 @@ Example ex_observe_vector :
   observe (cfg DoublyLinkedList) 1 (run (cfg DoublyLinkedList) [Add [5; 6]; Insert 1 [6]]) =
   observe (cfg ArrayList) 1 (run (cfg ArrayList) [Add [5]; SetAt 1 6; Insert 2 [6]]).
 Proof. vm_compute; reflexivity. Qed.
+
+(* ---------- rebuilding a list from its own Values() ----------
+   Model side of the "variadic constructor" conjunct of harness sane bit 7: the harness checks after
+   every operation that New(list.Values()...) — in the Go code "construct empty, then one
+   Add(values...) call", at machine level the one-operation history [Add vs] — has the same observation
+   vector (size, empty, values, contains, getidx, indexof) as the list itself.  Here: for every
+   configuration of the three list kinds and EVERY history, the rebuilt machine state is not a panic
+   and IS the state of the original (so every observer agrees, at every observation level). *)
+From Gods Require Import Proofs.RebuildProofs.
+
+Theorem C03_rebuild_from_values : forall c ops, is_list_kind (ckind c) = true ->
+  let s := run c ops in
+  let r := run c [Add (values_of c s)] in
+  r <> StCrash /\ r = s /\ forall lvl, observe c lvl r = observe c lvl s.
+Proof. exact rebuild_list_full. Qed.
+Print Assumptions C03_rebuild_from_values.
+
+Example ex_rebuild_from_values :
+  let h := [Add [3; 1; 3]; Insert 1 [7; 7]; Prepend [4]; RemoveAt 0; Swap 0 2; Add [1]] in
+  three (fun k => run (cfg k) [Add (values_of (cfg k) (run (cfg k) h))]) = three (fun k => run (cfg k) h) /\
+  three (fun k => run (cfg k) h) = [StSeq [1; 7; 7; 3; 1]; StSeq [7; 7; 3; 1; 3; 1]; StSeq [7; 7; 3; 1; 3; 1]].
+Proof. vm_compute; split; reflexivity. Qed.
